@@ -296,7 +296,49 @@ def chk_net(case, note):
     return None
 
 
+# ------------------------------------------------------------------ coverage-guided campaign (thorough tier)
+def fuzz_decode(fdp):
+    fmt = ["beast", "beast_rssi", "raw", "skysense"][fdp.ConsumeIntInRange(0, 3)]
+    nfr = fdp.ConsumeIntInRange(1, 4)
+    frames_ = []
+    for _ in range(nfr):
+        if fmt.startswith("beast"):
+            typ = fdp.ConsumeIntInRange(1, 4)
+            body = list(fdp.ConsumeBytes(7 + BLEN[typ]))
+            body += [ESC] * (7 + BLEN[typ] - len(body))  # short input: pad with escape bytes, the interesting value
+            frames_.append([typ, body])
+        elif fmt == "raw":
+            n = 14 if fdp.ConsumeBool() else 28
+            b = fdp.ConsumeBytes(n // 2)
+            h = (b.hex() + "0" * n)[:n]
+            frames_.append([h.upper() if fdp.ConsumeBool() else h, ["\n", "\r\n", ""][fdp.ConsumeIntInRange(0, 2)]])
+        else:
+            rec = list(fdp.ConsumeBytes(23))
+            frames_.append(rec + [0x24] * (23 - len(rec)))
+    cuts = [fdp.ConsumeIntInRange(0, 400) for _ in range(fdp.ConsumeIntInRange(0, 6))]
+    return {"fmt": fmt, "frames": frames_, "cuts": cuts}
+
+
+def fuzz_check(case, note):
+    stream, exp, done_at = build(case)
+    p = run_segmentation(case, stream, exp, done_at, [])
+    if p is None and case["cuts"]:
+        p = run_segmentation(case, stream, exp, done_at, [1 + x % max(1, len(stream) - 1) for x in case["cuts"]])
+    return "[%s] %s" % (case["fmt"], p) if p else None
+
+
+def enum_atheris(ctx):
+    from vlib import fuzzleg
+    yield from fuzzleg.campaign("c16", ctx, runs_quick=0, runs_thorough=150000, shards=4, max_len=160)
+
+
+def chk_atheris(case, note):
+    from vlib import fuzzleg
+    return fuzzleg.judge(case, note, fuzz_check)
+
+
 LEGS = [
+    Leg("atheris_streams", chk_atheris, enum=enum_atheris, shards_quick=1, shards_thorough=4, doc="libFuzzer campaign: bytes -> frames + cut list, chunk-independence oracle inside the target (thorough tier only)"),
     Leg("chunking", chk_stream, strategy=s_stream, quick=1200, thorough=24000, doc="whole / every single cut / 1-byte pieces / drawn multi-cut, all formats"),
     Leg("double_cuts", chk_stream_double, strategy=s_small, quick=64, thorough=3000, doc="every pair of cut positions on short streams"),
     Leg("netsource", chk_net, strategy=s_net, quick=3000, thorough=100000, doc="NetSource.handle_messages forwards every long DF17/18/20/21 message once, in order"),
